@@ -260,6 +260,7 @@ func init() {
 		}
 		return in.tc.Bool(e.T == nil && target.T == nil)
 	}
+	intrinsics["github.com/pkg/errors.Is"] = intrinsics["errors.Is"]
 	intrinsics["errors.Unwrap"] = func(in *Interp, g *G, fv *FuncV, a []Value) Value {
 		e := a[0].(IfaceV)
 		if eo, ok := e.V.(*ErrObj); ok && eo.Cause != nil {
@@ -267,6 +268,7 @@ func init() {
 		}
 		return IfaceV{}
 	}
+	intrinsics["github.com/pkg/errors.Unwrap"] = intrinsics["errors.Unwrap"]
 	ctxTimeout := func(in *Interp, g *G, fv *FuncV, a []Value) Value {
 		p := a[0].(IfaceV)
 		po, ok := p.V.(*CtxObj)
